@@ -40,7 +40,7 @@ class Contract:
                  name=None, notes='', trusted=False, body=None, stop_at_loop_exit=None, end_ensures=None,
                  calls=None, level='P', ghost=None, yields=None, rely=None, inline_src=None,
                  skip_frame=False, at_exit=(), fields=None, ghost_requires=(), ghost_sets=None,
-                 start_after_loop=None, stop_after_loop=None, heap_consts=False):
+                 start_after_loop=None, stop_after_loop=None, heap_consts=False, solver_ms=0):
         self.target = target
         self.file, self.qualname = target.split('::') if '::' in target else (None, target)
         self.params = dict(params or {})
@@ -75,6 +75,7 @@ class Contract:
         # tiling a function into segments at its top-level loops: a segment starts right after loop `start_after_loop` (locals from
         # contract.locals, start_assume as precondition) and ends right after loop `stop_after_loop`, where end_ensures is proved
         self.heap_consts = heap_consts
+        self.solver_ms = solver_ms
         self.start_after_loop = start_after_loop
         self.stop_after_loop = stop_after_loop
         self.end_ensures = [end_ensures] if isinstance(end_ensures, str) else list(end_ensures or [])   # ghost global name -> expression (over old state) it is set to by a call
